@@ -16,7 +16,7 @@ import (
 // store operations with at most k preemptions; both acknowledged: the target's stored index holds every supervoxel an
 // acknowledged merge moved into it (no merge is lost), merged bodies are gone, voxel counts are conserved.
 // Params: preemption bound; pair (0: merge 20->10 || merge 30->10, 1: merge 20->10 || cleave sv 11 off 10,
-// 2: merge 20->10 || block change on body 10 (voxel ingest), 3: merge 20->10 || cleave sv 21 off body 20).
+// 2: merge 20->10 || block change on body 10 (voxel ingest), 3: merge 20->10 || cleave sv 21 off body 20, 4: renumber 20->40 || block change on body 20).
 func VerifC11_Merges() {
 	k, pair := vh.Param(0), vh.Param(1)
 	s := vstore.New()
@@ -51,9 +51,26 @@ func VerifC11_Merges() {
 	info := dvid.ModInfo{User: "u", App: "a", Time: "t"}
 
 	var e1, e2 error
+	izyx := dvid.ChunkPoint3d{1, 2, 3}.ToIZYXString()
+	if pair == 4 {
+		vh.Schedule(k)
+		go func() { _, e1 = d.RenumberLabels(v, 20, 40, info) }()
+		go func() { e2 = ChangeLabelIndex(d, v, 20, labels.SupervoxelChanges{20: {izyx: 5}}) }()
+		vh.Quiesce()
+		vh.Assert(e1 == nil && e2 == nil, "both requests acknowledged")
+		ctx := datastore.NewVersionedCtx(d, v)
+		g20, _ := getLabelIndex(ctx, 20)
+		g40, _ := getLabelIndex(ctx, 40)
+		// renumber then change: the change re-creates an index for label 20 with only the delta; change then renumber:
+		// body 40 holds n20+5.  Either way the 5 voxels of the acknowledged block change are recorded somewhere.
+		c40, ok40 := vSV(g40, bk, 20)
+		c20, ok20 := vSV(g20, bk, 20)
+		vh.Assert(ok40 && ((c40 == n20+5 && !ok20) || (c40 == n20 && ok20 && c20 == 5)), "the renumbered body and the acknowledged block change are both recorded (some sequential order)")
+		vh.Reach("end")
+		return
+	}
 	vh.Schedule(k)
 	go func() { _, e1 = d.MergeLabels(v, labels.MergeOp{Target: 10, Merged: labels.NewSet(20)}, info) }()
-	izyx := dvid.ChunkPoint3d{1, 2, 3}.ToIZYXString()
 	if pair == 0 {
 		go func() { _, e2 = d.MergeLabels(v, labels.MergeOp{Target: 10, Merged: labels.NewSet(30)}, info) }()
 	} else if pair == 2 {
